@@ -352,9 +352,15 @@ def hostilize(rng, doc, prephase=None, allow_missing=True):
     for r in doc.records:
         # extra record before this one?
         if rng.random() < 0.25:
-            kind = rng.choice(["multi", "symbolic", "noalt", "dup", "dup"])
+            kind = rng.choice(["multi", "symbolic", "noalt", "dup", "dup", "multidup"])
             if kind == "dup":
                 ref, alts = r["ref"][0], [rng.choice([b for b in BASES if b != r["ref"][0]])]
+                pos = r["pos"]
+            elif kind == "multidup":
+                # a multi-ALT record at the very position of a simulated variant (before or after it)
+                others = [b for b in BASES if b != r["ref"][0]]
+                rng.shuffle(others)
+                ref, alts = r["ref"][0], others[: rng.choice([2, 2, 3])]
                 pos = r["pos"]
             else:
                 ref, alts = random_ref_alt(rng, kind)
@@ -368,7 +374,7 @@ def hostilize(rng, doc, prephase=None, allow_missing=True):
                 calls.append({"GT": rng.choice(["/", "/", "|"]).join(g), "GQ": "30"})
             x = {"chrom": r["chrom"], "pos": pos, "id": ".", "ref": ref, "alts": alts, "qual": ".", "filter": ".", "info": ".",
                  "fmt": ["GT", "GQ"], "calls": calls, "kind": kind}
-            if kind == "dup" and rng.random() < 0.5:
+            if kind in ("dup", "multidup") and rng.random() < 0.5:
                 new.append(r)
                 r = x  # duplicate goes after
             else:
